@@ -230,8 +230,15 @@ impl CGen {
                 set.insert(Utxo {
                     r#ref: r,
                     address: ADDR_A.to_vec(),
-                    assets: CanonicalAssets::from_naked_amount(5_000_000),
-                    datum: None,
+                    // what the UTxO holds is nobody's business at this stage (the references are what is compiled):
+                    // plain lovelace, lovelace next to a token, a token alone, nothing
+                    assets: match self.r.below(5) {
+                        0 => (CanonicalAssets::from_naked_amount(6_000_000) + CanonicalAssets::from_defined_asset(&policy(1), b"TK", 10)),
+                        1 => CanonicalAssets::from_defined_asset(&policy(2), b"", 1),
+                        2 => CanonicalAssets::empty(),
+                        _ => CanonicalAssets::from_naked_amount(5_000_000),
+                    },
+                    datum: if self.r.chance(1, 4) { Some(E::Number(7)) } else { None },
                     script: None,
                 });
             }
@@ -451,9 +458,37 @@ pub fn compile_obs(tx: &tir::Tx, mainnet: bool, cost_models: bool) -> Value {
 }
 
 pub fn compile_obs_with(tx: &tir::Tx, mainnet: bool, versions: &[u8]) -> Value {
+    compile_obs_on(tx, mainnet, versions, None)
+}
+
+/// A template that touches every part of a transaction a compiler could be tempted to remember: redeemers (so a
+/// script-data hash), a datum, a mint, metadata, a withdrawal.
+fn warm_up_tx() -> tir::Tx {
+    let mut t = empty_tx();
+    t.fees = ada(190_000);
+    t.inputs.push(tir::Input {
+        name: "w".into(),
+        utxos: E::UtxoRefs(vec![UtxoRef { txid: vec![9; 32], index: 3 }]),
+        redeemer: E::Number(1),
+    });
+    t.outputs.push(tir::Output { address: E::Address(ADDR_A.to_vec()), datum: E::Number(5), amount: ada(3_000_000), optional: false });
+    t.mints.push(tir::Mint {
+        amount: E::Assets(vec![tir::AssetExpr { policy: E::Bytes(policy(3)), asset_name: E::Bytes(b"W".to_vec()), amount: E::Number(2) }]),
+        redeemer: E::Number(2),
+    });
+    t.metadata.push(tir::Metadata { key: E::Number(1), value: E::String("warm".into()) });
+    t
+}
+
+/// `warm`: the compiler has compiled another template before this one and has not been reset (what `compile`
+/// answers is a function of the template and the parameters, not of what the instance did earlier).
+pub fn compile_obs_on(tx: &tir::Tx, mainnet: bool, versions: &[u8], warm: Option<&tir::Tx>) -> Value {
     let r = guarded(|| {
         let pp = store::pparams_with(mainnet, 44, 155_381, 4310, versions);
         let mut c = store::compiler(pp, Some(0));
+        if let Some(w) = warm {
+            let _ = c.compile(&AnyTir::V1Beta0(w.clone()));
+        }
         c.compile(&AnyTir::V1Beta0(tx.clone()))
     });
     match r {
@@ -519,7 +554,9 @@ pub fn case_with(tx: &tir::Tx, mainnet: bool, cost_models: &[u8]) -> Value {
     // the same bytes
     let again = (0..4).all(|_| compile_obs_with(&rebuild_sets(tx), mainnet, cost_models) == obs);
     let again = if again { obs.clone() } else { Value::Null };
-    json!({"tx": tx_json(tx), "mainnet": mainnet, "cost_models": cost_models, "obs": obs, "same_again": obs == again})
+    // ... and so must a compiler that has compiled something else before (another template; this one itself)
+    let same_used = compile_obs_on(tx, mainnet, cost_models, Some(&warm_up_tx())) == obs && compile_obs_on(tx, mainnet, cost_models, Some(tx)) == obs;
+    json!({"tx": tx_json(tx), "mainnet": mainnet, "cost_models": cost_models, "obs": obs, "same_again": obs == again, "same_used": same_used})
 }
 
 pub fn run(opts: &Opts, out: &mut Emitter, prop: &str) {
@@ -562,6 +599,83 @@ pub fn run(opts: &Opts, out: &mut Emitter, prop: &str) {
             optional: false,
         });
         out.case("corpus-negative-output", || case(&t3, false, true));
+    }
+    // every block that holds UTxOs (an input, the collateral, a reference) x what the UTxOs given to it hold: lovelace
+    // only, lovelace and a token, a token alone, nothing, a datum - one of them or two of different kinds
+    {
+        let mk = |b: u8, kind: usize| Utxo {
+            r#ref: UtxoRef { txid: vec![b; 32], index: kind as u32 },
+            address: ADDR_A.to_vec(),
+            assets: match kind {
+                0 => CanonicalAssets::from_naked_amount(5_000_000),
+                1 => CanonicalAssets::from_naked_amount(6_000_000) + CanonicalAssets::from_defined_asset(&policy(1), b"TK", 10),
+                2 => CanonicalAssets::from_defined_asset(&policy(2), b"", 1),
+                3 => CanonicalAssets::empty(),
+                _ => CanonicalAssets::from_naked_amount(5_000_000) + CanonicalAssets::from_naked_amount(0),
+            },
+            datum: if kind == 4 { Some(E::Number(7)) } else { None },
+            script: None,
+        };
+        for slot in 0..3 {
+            for a in 0..5usize {
+                for b in [None, Some(0usize), Some(1), Some(2)] {
+                    let mut set: HashSet<Utxo> = HashSet::new();
+                    set.insert(mk(0x21, a));
+                    if let Some(b) = b {
+                        set.insert(mk(0x22, b));
+                    }
+                    let mut t = empty_tx();
+                    t.fees = ada(1);
+                    t.inputs.push(tir::Input { name: "a".into(), utxos: E::UtxoRefs(vec![UtxoRef { txid: vec![1; 32], index: 0 }]), redeemer: E::None });
+                    t.outputs.push(tir::Output { address: E::Address(ADDR_A.to_vec()), datum: E::None, amount: ada(2_000_000), optional: false });
+                    match slot {
+                        0 => t.inputs.push(tir::Input { name: "b".into(), utxos: E::UtxoSet(set), redeemer: E::None }),
+                        1 => t.collateral.push(tir::Collateral { utxos: E::UtxoSet(set) }),
+                        _ => t.references.push(E::UtxoSet(set)),
+                    }
+                    out.case("utxo-contents", || case(&t, false, true));
+                }
+            }
+        }
+    }
+    // every position that holds one number (the fee, the two validity bounds, a withdrawal's amount, the donation, a
+    // metadata label) x every shape a reduced expression can have there: a number, a value of no / one / two / three
+    // classes (what asset arithmetic leaves: `source - Ada(n)` where the UTxO also holds a token), other leaves
+    {
+        let tok = |p: u8, n: i128| tir::AssetExpr { policy: E::Bytes(policy(p)), asset_name: E::Bytes(b"TK".to_vec()), amount: E::Number(n) };
+        let naked = |n: i128| tir::AssetExpr { policy: E::None, asset_name: E::None, amount: E::Number(n) };
+        let shapes: Vec<E> = vec![
+            E::Number(7),
+            E::Assets(vec![]),
+            E::Assets(vec![naked(7_000_000)]),
+            E::Assets(vec![tok(1, 3)]),
+            E::Assets(vec![naked(7_000_000), tok(1, 3)]),
+            E::Assets(vec![tok(1, 3), naked(7_000_000)]),
+            E::Assets(vec![naked(4), naked(5)]),
+            E::Assets(vec![tok(1, 3), tok(2, 4), naked(9)]),
+            E::None,
+            E::Bytes(vec![7]),
+            E::Bool(true),
+            E::String("7".into()),
+            E::List(vec![E::Number(7)]),
+        ];
+        for pos in 0..6 {
+            for shape in shapes.iter() {
+                let mut t = empty_tx();
+                t.fees = ada(1);
+                t.inputs.push(tir::Input { name: "a".into(), utxos: E::UtxoRefs(vec![UtxoRef { txid: vec![1; 32], index: 0 }]), redeemer: E::None });
+                t.outputs.push(tir::Output { address: E::Address(ADDR_A.to_vec()), datum: E::None, amount: ada(2_000_000), optional: false });
+                match pos {
+                    0 => t.fees = shape.clone(),
+                    1 => t.validity = Some(tir::Validity { since: shape.clone(), until: E::None }),
+                    2 => t.validity = Some(tir::Validity { since: E::None, until: shape.clone() }),
+                    3 => t.adhoc.push(adhoc("withdrawal", vec![("credential", E::Address(stake_addr(true, 0x41))), ("amount", shape.clone()), ("redeemer", E::None)])),
+                    4 => t.adhoc.push(adhoc("treasury_donation", vec![("coin", shape.clone())])),
+                    _ => t.metadata.push(tir::Metadata { key: shape.clone(), value: E::Number(1) }),
+                }
+                out.case("scalar-shape", || case(&t, false, true));
+            }
+        }
     }
     // mint/burn stress: partial sums that overflow 64 bits although the net fits, exact cancels
     {
